@@ -17,7 +17,7 @@ static inline void iora_rbmap_havoc_other(iora_rbmap *m)
 static inline void iora_pcmap_havoc_other(iora_pcmap *m) { SyncConnectOp *o = m->other; o->done = false; o->abandoned = nondet_bool(); o->cv.n_one = 0; }
 static inline void iora_obmap_havoc_other(iora_obmap *m) { m->other.n = nondet_size_t(); IORA_ASSUME(m->other.n <= ((size_t)1 << 40)); m->other.w.id = nondet_u64(); m->other.w.cb_set = nondet_bool(); }
 static inline void iora_o2smap_havoc_other(iora_o2smap *m) { m->other = nondet_u64(); }
-static inline void iora_udmap_havoc_other(iora_udmap *m) { m->other.data = nondet_u64(); m->other.cleanup_set = nondet_bool(); }
+static inline void iora_udmap_havoc_other(iora_udmap *m) { m->other.data = nondet_u64(); m->other.cleanup = nondet_bool(); }
 static inline size_t iora_rbmap_size(const iora_rbmap *m) { IORA_GMAP1_GUARDED(m); size_t n = nondet_size_t(); IORA_ASSUME(n >= (m->present ? 1 : 0)); return n; }
 
 /* ---- std::make_shared<SyncReceiveBuffer>() (tombstone): one fresh object supplied by the harness, default member initialisers ---- */
@@ -105,6 +105,9 @@ static inline void iora_call_Cleanup(Impl *im, uint64_t data)
   if (G_cleanup_calls < 1000) G_cleanup_calls++;
   G_cleanup_seq = ++G_seq; G_cleanup_data = data;
 }
+
+/* R10: nextObserverId.fetch_add(1, relaxed): sequential semantics (atomicity / ordering not modelled) */
+static inline uint64_t iora_afetch_add_u64(uint64_t *x, uint64_t n) { uint64_t o = *x; IORA_ASSERT(o <= (uint64_t)-1 - n, "observer id counter does not wrap"); *x = o + n; return o; }
 
 /* ---- loop contracts ---- */
 /* the non-DFCC loop-contract instrumentation counts the `do { } while (0)` of the disabled canary macro as an inner loop without contract */
